@@ -4,17 +4,36 @@ CONF = dict(
     cmd='c02',
     props='Props/C02.v',
     rule=('slices of n = 0..40 int64 offsets (mostly n <= 12) around a common base with clustered duplicates, odd values, +-(2^62-1) extremes; up to floor((n-1)/3) '
- 'positions tagged arbitrary and placed all-high / all-low / split / random; random permutations of the same multiset; measurement variants with timestamps '
- 'and error flags. Non-trivial: n >= 4 with at least one arbitrary value outside the range of the correct ones (or a permuted copy / errored measurement with '
- 'n >= 4); distinct = distinct (kind, input)'),
+ 'positions tagged arbitrary and placed all-high / all-low / split / random; random permutations of the same multiset; family *.big: every n in 1..200 in every '
+ 'run with EXACTLY floor((n-1)/3) arbitrary values at random positions, all above / all below / split around the correct ones (far end of the range or 1..4 ns '
+ 'outside the correct range), for durations (all three placements at every n) and for measurements, median and permuted copies (one placement per n); '
+ 'measurement variants [sec since year 1, nsec, offset, error] with error flags on inputs; family *.far: 1..9 measurements whose timestamps are the zero '
+ 'time.Time{}, modern, exactly 2^63-1 ns (+-2) apart, more than 292 years apart, at both ends of time.Time\'s int64-second range, equal with different '
+ 'offsets; Midpoint on pairs below 2^62 (both argument orders, odd differences, +-(2^62-1)) with the containment oracle, and pairs at / beyond 2^62 (kind '
+ 'ftm.midpoint.beyond, incl. (-2^62, 2^62) and (MinInt64, MaxInt64)) compared with the model only. Non-trivial: n >= 4 with at least one arbitrary value '
+ 'outside the range of the correct ones, or a permuted copy / errored measurement with n >= 4, or a measurement case whose two selected timestamps are more '
+ 'than 2^63-1 ns apart (tag sat), contain the zero time (tag zero) or are equal with different offsets (tag eqts), or a Midpoint pair with x != y; '
+ 'distinct = distinct (kind, input). Further tags: fmax (exactly floor((n-1)/3) arbitrary), errsel (an errored measurement is one of the two selected), tie '
+ '(the selected record depends on the unstable sort), wrap (y-x leaves int64)'),
     assumptions=['slices.Sort / slices.SortFunc return a sorted permutation (their contract); for measurements the model is relational in the order of equal offsets',
- 'time.Time as unbounded nanoseconds; Time.Sub saturates, Time.Add exact'],
-    trusted=["modelled, not verified: Go's slices.Sort/SortFunc (pdqsort) by contract; the observed slice after each call is checked to be a sorted permutation"],
+ 'time.Time as Go represents a wall-clock time: int64 seconds since January 1 of year 1 + nanoseconds in [0, 10^9); After/Add/addSec/Sub transcribed from '
+ 'go1.24.2 src/time/time.go for times without monotonic reading (the project\'s timestamps come from time.Unix(..).UTC(), time.Now().UTC() and time.Time{}; '
+ 'UTC() strips the monotonic reading)'],
+    trusted=["modelled, not verified: Go's slices.Sort/SortFunc (pdqsort) by contract; the observed slice after each call is checked to be a sorted permutation "
+ "(multiset equality of the values / of the full measurement records, and ascending order)",
+ 'time.Time values with a monotonic clock reading are outside the model (Sub would use the monotonic readings)'],
     technique=('Coq proof: counting argument on sorted tagged lists (among the f+1 smallest and the f+1 largest there is a correct value), uniqueness of sorted '
- 'permutations, int64 no-overflow lemma below 2^62; relational model for the unstable measurement sort; differential execution against timemath/measurements'),
-    level_text=('Theorems hold for every n >= 1, every multiset with |v| < 2^62, every placement of <= floor((n-1)/3) arbitrary values and every permutation; measurement '
- 'theorems hold for every sorted permutation the unstable sort may produce. Model tied to the Go functions by running both on adversarially placed inputs; the '
- "containment/permutation/sortedness oracle is evaluated on the implementation's outputs"),
+ 'permutations, int64 no-overflow lemma below 2^62; Go time.Time arithmetic over (int64 seconds, nanoseconds): Sub proved equal to the saturated difference '
+ 'of the instants for all representable times, Add exact in range, hence timestamp containment also when Sub saturates; executable multiset equality proved '
+ 'equivalent to Permutation; relational model for the unstable measurement sort; differential execution against timemath/measurements'),
+    level_text=('Theorems hold for every n >= 1, every multiset with |v| < 2^62, every placement of <= floor((n-1)/3) arbitrary values and every permutation; Midpoint '
+ 'containment for all |x|,|y| < 2^62 with a witness that the bound is tight; measurement theorems hold for every sorted permutation the unstable sort may '
+ 'produce, every error flag on the inputs (result error nil) and ALL representable time.Time values (zero time, > 292 years apart, ends of the range): the '
+ 'combined timestamp lies between the two selected timestamps, and is their midpoint iff they are at most 2^63-1 ns apart. The oracle for "only reorders" '
+ 'accepts exactly the sorted permutations (multiset of values / full records). Model tied to the Go functions by running both on adversarially placed '
+ "inputs; the containment/permutation/sortedness/timestamp/error oracle is evaluated on the implementation's outputs"),
     level_note='Trusted: Coq kernel, model validated by the correspondence run, extraction, harness; slices.Sort by contract (checked on every observed output). No axioms.',
-    min_cases={'ftm.dur': 450, 'ftm.meas': 450, 'ftm.midpoint': 450, 'ftm.perm': 418, 'ftm.sgninv': 450, 'median.dur': 450, 'median.meas': 450},
+    timeout_quick=600,
+    timeout_thorough=3000,
+    min_cases={'ftm.dur': 450, 'ftm.dur.big': 180, 'ftm.meas': 450, 'ftm.meas.big': 60, 'ftm.meas.far': 452, 'ftm.midpoint': 409, 'ftm.midpoint.beyond': 48, 'ftm.perm': 480, 'ftm.sgninv': 450, 'median.dur': 450, 'median.dur.big': 60, 'median.meas': 450, 'median.meas.big': 60, 'median.meas.far': 452},
 )
